@@ -114,7 +114,7 @@ PROPS['C17'] = dict(
 )
 
 PROPS['C07'] = dict(
-    theorems=['match_spec', 'retained_last_write', 'get_exactly_matching', 'get_once_per_topic', 'retained_replicates', 'subscribe_replays_exactly'],
+    theorems=['match_spec', 'retained_last_write', 'get_exactly_matching', 'get_once_per_topic', 'retained_replicates', 'subscribe_replays_exactly', 'live_copy_is_not_flagged', 'retained_write_touches_no_subscription'],
     families=[dict(name='tries', corr='Tries', runs=[('x07', 1, 1), ('rtop', 300, 5000)]),
               dict(name='crdt', corr='DState', runs=[('retained', 250, 4000)]),
               dict(name='broker', corr='Broker', runs=[('retained', 32, 400)], par=8)],
@@ -128,7 +128,7 @@ _E2E_NOTE = 'Trusted: Coq kernel + vm_compute; the end-to-end harness (scripted 
 def _broker(runs):
     return dict(name='broker', corr='Broker', runs=runs, par=8)
 
-PROPS['C02'] = dict(theorems=['acked_implies_stored', 'nothing_skipped', 'stored_entry_delivered', 'delivered_only_to_recipients', 'qos_recipient_is_written', 'acknowledged_publish_reaches_subscribers'],
+PROPS['C02'] = dict(theorems=['acked_implies_stored', 'nothing_skipped', 'stored_entry_delivered', 'delivered_only_to_recipients', 'qos_recipient_is_written', 'acknowledged_publish_reaches_subscribers', 'initial_state_has_caught_up', 'consumers_catch_up_in_every_step'],
     level_text="Theorems (node model): the acknowledgement is emitted only after every destination log accepted the message; the log consumer hands every stored entry, offset 0 included, to the writer; a stored entry is written with topic and payload intact to exactly the recipients in the registry. Tied to the Go code by end-to-end scripts on a real node with a real message log (publishers, subscribers, QoS mix, retained clears, a subscriber whose writes fail), compared step by step with the model. Segment rolls and truncation are covered by C15's consumer model and the thorough tier's 520-publish runs.",
     level_note=_E2E_NOTE,
     families=[_broker([('pipeline', 40, 400)]), dict(name='crash', corr='Consumer', runs=[('edges', 16, 160)], par=8)], rule='pipeline: 1-3 publishers and subscribers, 1-12 publishes (QoS mix) from the very first log entry on; thorough: every 41st case 520 publishes (segment roll).')
